@@ -273,6 +273,26 @@ func Run(ctx *common.Ctx) int {
 			}
 		}
 	}
+	// faults placed by BYTE OFFSET (the parallel variants may read a sample in several pieces: a fault index counted in
+	// Reads would then never reach the tail of a sample): the last byte, the last 1000 and 2121 bytes, the middle and
+	// both sides of the first sample boundary
+	for wi := range wf.All {
+		w := &wf.All[wi]
+		total := w.S * w.N
+		var sp []fast.SrcSpec
+		for _, off := range []int{total - 1, total - 1000, total - 2121, total - w.N/2, total - w.N + 1, total / 2, w.N + 1, w.N - 1, 1} {
+			if off <= 0 {
+				continue
+			}
+			for _, k := range []string{"eof", "custom", "partial"} {
+				sp = append(sp, fast.SrcSpec{Kind: "faultat", Index2: -1, Err: k, Offset: off})
+			}
+		}
+		for _, W := range []int{1, 2} {
+			t := mk(w, W, 0, 0, sp, "byte-offsets")
+			tasks = append(tasks, t)
+		}
+	}
 	// consecutive failing calls in one process: W+2 calls, each on its own failing source; a resource a failing
 	// call leaves behind (a limiter slot, a goroutine, a buffer) shows in the later calls
 	for wi := range wf.All {
